@@ -3,12 +3,14 @@
 package server
 
 import (
+	"os"
+
 	"github.com/liftbridge-io/liftbridge/server/logger"
 )
 
 func vfLogger() logger.Logger {
 	l := logger.NewLogger(0)
-	l.Silent(true)
+	l.Silent(os.Getenv("VERIF_LOG") == "")
 	return l
 }
 
@@ -17,7 +19,7 @@ func vfConfig(dataDir, id string) *Config {
 	c.DataDir = dataDir
 	c.Clustering.ServerID = id
 	c.Clustering.Namespace = "vf"
-	c.LogSilent = true
+	c.LogSilent = os.Getenv("VERIF_LOG") == ""
 	c.LogRecovery = true // finishedRecovery would otherwise un-silence the logger
 	c.Telemetry.Enabled = false
 	return c
